@@ -54,6 +54,10 @@ theorem src_done (s : Sys) (k : PyChan.Val → Co) :
 theorem src_close_sync (s : Sys) (k : PyChan.Val → Co) : runSync s (SrcChan.close k) = runSync (doClose s) (k .none) :=
   run_close s k
 
+/-- `__aiter__()` as written returns `self` -/
+theorem src_aiter (s : Sys) (k : PyChan.Val → Co) : runSync s (SrcChan.aiter k) = runSync s (k .self) :=
+  run_aiter s k
+
 /-! ## the tie: `micro` is a segment step of the translated source -/
 
 /-- **A**: one atomic action of the model = one segment step of the translated source (`srcMicro`: the coroutine state
